@@ -301,8 +301,8 @@ func TestVerifC04(t *testing.T) {
 				}
 			}
 			// a number that differs from an available one by a multiple of 2^32 is another segment (centuries away)
-			for _, rp := range []string{"V300/%d.m4s", "A48/%d.m4s", "imsc1_txt_sv/%d.m4s", "thumbs/%d.jpg"} {
-				for _, mode := range []string{"", "segtimelinenr_1/", "snr_7/"} {
+			for _, rp := range []string{"V300/%d.m4s", "A48/%d.m4s", "imsc1_txt_sv/%d.m4s", "thumbs/%d.jpg", "timestpp-en/%d.m4s", "timewvtt-en/%d.m4s"} {
+				for _, mode := range []string{"timesubsstpp_en/timesubswvtt_en/", "timesubsstpp_en/timesubswvtt_en/segtimelinenr_1/", "timesubsstpp_en/timesubswvtt_en/snr_7/"} {
 					for _, k := range []int64{1 << 32, 1 << 33, 3 << 32, 1 << 40} {
 						base := fmt.Sprintf("/livesim2/%stestpic_2s/"+rp+"?nowMS=100000", mode, 30)
 						u := fmt.Sprintf("/livesim2/%stestpic_2s/"+rp+"?nowMS=100000", mode, 30+k)
